@@ -535,7 +535,7 @@ def generate(ctx):
     for p in EXPLICIT_SYM:
         yield "sym", {"prog": p}
     n = 0
-    target = ctx.n(500, 5000)
+    target = ctx.n(400, 5000)
     while n < target:
         counter = [0]
         p = gen_prog(rng, 0, [], counter)
@@ -543,7 +543,7 @@ def generate(ctx):
             continue
         n += 1
         yield "sym", {"prog": p, "scheduler": rng.choice(["sync", "sync", "threads"])}
-    for _ in range(ctx.n(200, 2000)):
+    for _ in range(ctx.n(150, 2000)):
         base = U.gen_value(rng, 1, arrays=rng.random() < 0.3)
         calls = []
         for _ in range(rng.randint(2, 3)):
@@ -555,7 +555,7 @@ def generate(ctx):
                 call["kwargs"] = [[k, ["val", U.gen_scalar(rng)]] for k in rng.sample(["y", "a", "zz"], rng.randint(1, 2))]
             calls.append(call)
         yield "purekey", {"f": rng.randrange(len(U.FUNCS)), "calls": calls}
-    for i in range(ctx.n(150, 1500)):
+    for i in range(ctx.n(110, 1500)):
         yield "surface", {"idx": i, "a": rng.randint(1, 4), "b": rng.randint(1, 5), "lst": [rng.randint(0, 9) for _ in range(4)],
                           "scheduler": rng.choice(["sync", "threads"])}
     for _ in range(ctx.n(10, 50)):
